@@ -34,7 +34,65 @@ func (x *Exec) doCall(st *State, in *ssa.Call) []Outcome {
 // dynamicCall: calls through function values or interfaces.  Unless a
 // call-site contract exists, the result is unconstrained and the callee is
 // assumed not to write caller-visible memory (recorded).
+// dynApp: a call through a function value whose parameters and results are
+// all scalars is an uninterpreted function of the function value and the
+// arguments (function values are assumed pure; listed).
+func (x *Exec) dynApp(sig *types.Signature, fv *Term, args []*Term) ([]*Term, bool) {
+	scalar := func(s Sort) bool { return s == SInt || s == SStr || s == SF64 || s == SBool || s.IsBV() }
+	name := "dyn_" + sanitize(types.TypeString(sig, nil))
+	var ps []string
+	ps = append(ps, string(fv.Sort))
+	for i := 0; i < sig.Params().Len(); i++ {
+		s := x.ti.SortOf(sig.Params().At(i).Type())
+		if !scalar(s) || i >= len(args) || args[i].Sort != s {
+			return nil, false
+		}
+		ps = append(ps, string(s))
+	}
+	if sig.Results().Len() == 0 || sig.Variadic() {
+		return nil, false
+	}
+	var out []*Term
+	for i := 0; i < sig.Results().Len(); i++ {
+		rs := x.ti.SortOf(sig.Results().At(i).Type())
+		if !scalar(rs) {
+			return nil, false
+		}
+		fn := fmt.Sprintf("%s_%d", name, i)
+		x.declareFun(fn, fmt.Sprintf("(declare-fun %s (%s) %s)", fn, strings.Join(ps, " "), rs))
+		out = append(out, App(fn, rs, append([]*Term{fv}, args...)...))
+	}
+	return out, true
+}
+
 func (x *Exec) dynamicCall(st *State, in *ssa.Call, what string) []Outcome {
+	com := in.Common()
+	if !com.IsInvoke() {
+		if fvv, ok := x.val(st, com.Value).(TV); ok && fvv.T.Sort == SOpq {
+			var ats []*Term
+			okArgs := true
+			for _, a := range com.Args {
+				tv, ok := x.val(st, a).(TV)
+				if !ok {
+					okArgs = false
+					break
+				}
+				ats = append(ats, tv.T)
+			}
+			if okArgs {
+				if rs, ok := x.dynApp(com.Signature(), fvv.T, ats); ok {
+					x.assumeNote("calls through function values with scalar parameters and results are pure functions of the function value and the arguments")
+					var vals []Value
+					for i, r := range rs {
+						rt := com.Signature().Results().At(i).Type()
+						st.assume(x.ti.WF(r, rt, st.alloc)...)
+						vals = append(vals, TV{r, rt})
+					}
+					return []Outcome{{st, vals}}
+				}
+			}
+		}
+	}
 	x.assumeNote("dynamic call (" + what + ") in " + st.top().fn.Name() + ": result unconstrained, assumed not to modify memory visible to the caller")
 	rs := x.freshResults(st, in.Common().Signature().Results(), "dyn")
 	x.noteErrs(st, in.Common().Signature(), rs)
